@@ -420,6 +420,8 @@ def run_check(prop, tier, budget=None, max_runs=None, workers=None, quiet=False)
     seen = set()
     n_viol = 0
     exit_code = 0
+    unreproduced = []
+    pending_error = False
     for item in sorted(totals["violations"], key=lambda x: (x["violation"]["sig"], x["index"])):
         v = item["violation"]
         key = (v["property"], v["oracle"], str(v.get("sig")))
@@ -454,10 +456,22 @@ def run_check(prop, tier, budget=None, max_runs=None, workers=None, quiet=False)
                       "(allocator/collector dependent); reported as observed" % (
                           v["property"], v["oracle"], item["seed"], attempts), flush=True)
                 ok = True
+        if not ok and mplan is not item["plan"]:
+            # the minimised plan does not replay: fall back to the plan as it was found
+            path = write_replay(prop, item, item["plan"], v, 0)
+            mplan, mv = item["plan"], v
+            ok = replay_fresh(path)
         if not ok:
+            if exit_code == 1:
+                # other violations of this batch did replay and are reported; this one is not believed
+                print("HARNESS-WARNING violation %s/%s (seed %d) did not reproduce in a fresh interpreter and is not "
+                      "reported; replay kept at %s" % (v["property"], v["oracle"], item["seed"], path), flush=True)
+                unreproduced.append(path)
+                continue
             print("HARNESS-ERROR violation %s/%s (seed %d) did not reproduce in a fresh interpreter; "
                   "replay kept at %s" % (v["property"], v["oracle"], item["seed"], path), flush=True)
-            return 2
+            pending_error = True
+            continue
         k = match_known(mv, known) or k
         if k is not None:
             known_lines.append("KNOWN-FINDING: property=%s %s [%s] replay=%s" % (
@@ -472,6 +486,10 @@ def run_check(prop, tier, budget=None, max_runs=None, workers=None, quiet=False)
                 flush=True)
     for line in known_lines:
         print(line, flush=True)
+    if pending_error and exit_code == 0:
+        return 2          # nothing that was found could be replayed: a harness problem, not a verdict
+    if pending_error:
+        print("HARNESS-WARNING a violation that did not replay was dropped; the reported ones did replay", flush=True)
 
     wall = time.monotonic() - t_start
     write_evidence(prop, tier, master, totals, wall, n_viol, len(known_lines), det_checked, budget, workers)
